@@ -18,7 +18,7 @@ CHECKS = {
  "C04": dict(cat="exploration", sec="§4 C04", tech="exhaustive bounded enumeration of histories x all epoch pairs; real audit + audit_verify against published hashes",
    text="After every epoch E of every bounded history, audit(s,e) for every 0<=s<e<=E is produced by the real code and verified by the real auditor against the hashes the directory published (cross-checked against the model trie); invalid ranges must be refused."),
 
- "C05": dict(cat="exploration", sec="§4 C05", tech="exhaustive enumeration of leaf sets x query labels x adversarial proof candidates assembled from real tree nodes, judged by the real verifiers against set membership",
+ "C05": dict(cat="exploration", sec="§4 C05", tech="exhaustive enumeration of leaf sets x query labels x adversarial proof candidates assembled from real tree nodes, judged by the real verifiers against set membership; single-read fault enumeration on the proof generators",
    text="All 256 subsets of an 8-label universe with adversarial shared prefixes (0,1,7,8,9,254,255 bits) are built with the real insertion; for 60+ query labels each, the honest generators' proofs and every candidate a prover holding the tree can assemble (every ancestor as claimed longest prefix with real/swapped/emptied/grandchild children; every real path with label, direction, sibling or length altered; foreign hashes/epochs) go through the real verifiers; a proof may verify only if its statement is true of the set."),
  "C06": dict(cat="exploration", sec="§4 C06", tech="exhaustive enumeration of histories x labels x claimed versions x adversarial lookup-proof menu built from real material; real lookup_verify vs DirModel",
    text="After every epoch of every bounded history, for every label and every claimed version 1..n+1 a lookup proof is assembled from real material (real VRF proofs, real membership proofs, the absence generator's output and a forged absence at every real ancestor), with value/epoch/nonce substitutions and single-field swaps with other labels' and earlier epochs' proofs; lookup_verify may accept only the latest triple."),
@@ -30,7 +30,7 @@ CHECKS = {
    text="Every commit along the bounded histories is captured at the TransactionCommit write; every subset of its non-epoch records (all subsets up to 7/9 records, else all prefixes of 3 orders plus all subsets of size <=2 and >=n-2) is applied to the snapshot and a fresh ReadOnlyDirectory / cached Directory must serve the previous epoch intact (epoch hash, lookups, histories incl. MostRecent, audits) with the unfinished epoch invisible; once the epoch record lands the new epoch is served completely."),
  "C12": dict(cat="model_checking", sec="§4 C12", tech="stateless model checking of the implementation: all schedules of 2-3 real publish tasks up to a preemption bound under a controlled scheduler owning every storage/VRF await point",
    text="Real Directory::publish calls run as tokio tasks on clones of one directory under a controlled scheduler (tokio on_thread_park quiescence hook; gates at every Database call and VRF key fetch); every schedule with <=2 (thorough <=3) preemptions is executed to completion and judged: some serial order must explain every returned (epoch, hash) and the final state on the same and a fresh instance."),
- "C13": dict(cat="model_checking", sec="§4 C13", tech="stateless model checking of the implementation: all schedules of reader operations vs publishes / failing commits / the change poller up to a deviation bound, plus an exhaustive reader-lag matrix",
+ "C13": dict(cat="model_checking", sec="§4 C13", tech="stateless model checking of the implementation: all schedules of reader operations vs publishes / failing commits / the change poller up to a deviation bound, plus an exhaustive reader-lag matrix and a one-epoch-lag reader on every publish edge of the bounded history walk (incl. tree-shape alphabets)",
    text="Reader operations (lookup, batch lookup, history Complete/MostRecent, audit, epoch hash) on the writer, a clone, or a cached/uncached ReadOnlyDirectory run concurrently with 1-2 publishes (optionally with a failing commit, optionally with the poller whose timer is a scheduler choice) under the controlled scheduler, all schedules within the bound; plus warmed readers lagging 0-3 epochs. Every answer must be Err or name a really published (epoch, hash) and verify against it to ground truth as of that epoch."),
  "C17": dict(cat="exploration", sec="§4 C17", tech="exhaustive enumeration of label pairs / (label, length) / label sets against a Vec<bool> bit-string model",
    text="All ordered pairs of all labels of length 0..8 (thorough 0..10), a boundary family around every byte boundary up to 256 bits (also with garbage beyond the length), and all small label sets x every common prefix in sorted-searchable vs unsorted representation are compared with the bit-string model for is_prefix_of, longest common prefix, get_prefix, prefix ordering, Ord/Eq, partition, set common prefix and contains_prefix."),
